@@ -266,7 +266,9 @@ def realproc_job(job):
             agg.notes["realproc_run_gave_no_answer_within_300s"] += 1
             return agg.to_dict()
         if rc != 0 or line is None:
-            agg.harness_errors.append("real-process driver failed rc=%r: %s" % (rc, (err or out)[-400:]))
+            # OS-level trouble (fork failure under load): no evidence either way, not a verdict
+            agg.notes["realproc_could_not_run"] += 1
+            agg.notes["realproc_could_not_run: rc %r %s" % (rc, (err or out)[-120:].replace("\n", " "))] += 1
             return agg.to_dict()
         r = json.loads(line[7:])
         agg.notes["realproc_elapsed_s_total"] += int(r["elapsed"] + 0.5)
